@@ -68,6 +68,16 @@ claim("C13", "exploration",
       "Line-granularity preemption; itertools.count atomic; simulated primitives mirror threading.",
       "DESIGN.md §4 C13")
 
+claim("C01", "exploration",
+      "grammar-based program generation (Hypothesis) + reference-model differential: the same call tree interpreted in one "
+      "process vs across a real connection pair; invocation counters, argument ledgers, identity checks",
+      "Call trees with nested callbacks, exceptions raised and caught at different levels and every argument shape are "
+      "generated (a constructive ping-pong generator reaches depth 7); the oracle is the same interpreter run in one "
+      "process. Exactly-once is observed by counters kept outside both interpreters.",
+      "Both peers share one Python process (deterministic cooperative scheduling, in-memory transport under the real "
+      "Channel); exception payload details beyond class and plain args belong to C09.",
+      "DESIGN.md §4 C01")
+
 NOT_YET = "check not built yet in this revision (see DESIGN.md §8 build order)"
 
 
